@@ -137,7 +137,16 @@ func runC02(h *Harness) {
 		}
 	}
 	serial := big.NewInt(0x5151)
-	cert := w.A.Issue(EEOpts{Serial: serial, OCSP: urls, CDP: []string{}})
+	// a sixth of the random runs present a certificate whose authority key identifier names a key no certificate of
+	// the chain has: whether its issuer can be found at all is up to the code, but no verdict may come out of nothing
+	foreignAKI := h.Idx >= enum && tp.Chance(1, 6)
+	eo := EEOpts{Serial: serial, OCSP: urls, CDP: []string{}}
+	if foreignAKI {
+		eo.AKI = akiForeignKey
+		h.R.NonTrivial = true
+	}
+	sc["foreign_aki"] = foreignAKI
+	cert := w.A.Issue(eo)
 	cacheDur, _ := time.ParseDuration(cache)
 	var cachedStatus string
 	var cachedAt, cachedL time.Duration
@@ -175,6 +184,15 @@ func runC02(h *Harness) {
 			}
 		}
 		expect := "accept"
+		if foreignAKI {
+			// only what holds however the issuer lookup ends: strict never accepts without an authentic answer, and no
+			// verdict is produced without asking anybody
+			if strict && nHTTP > 0 && hs.Err == nil && (decided == "" || len(hits) == 0) {
+				h.Violation("C02.strict-accept", "strict-no-answer:foreign-aki", "strict: the certificate's authority key identifier matches no certificate of the chain; %d request(s) were made, no authentic answer can have been verified, yet the handshake was accepted (responders %v)", len(hits), behaviours[j])
+			}
+			hist = append(hist, fmt.Sprintf("hs%d[foreign-aki]=%s", j+1, verdict))
+			goto next
+		}
 		switch {
 		case len(hits) == 0 && nHTTP > 0:
 			// served without asking anybody: legal only from an authentic earlier answer
@@ -258,7 +276,7 @@ func normURL(u string) string {
 
 // ------------------------------------------------------------------------------------------ C05
 
-var c05signers = []string{sIssuer, sDelegated, sDelegatedNoE, sClientCert, sStrangerEmb, sStrangerBare, sSibling, sLookalike, sLookalikeBare}
+var c05signers = []string{sIssuer, sDelegated, sDelegatedNoE, sClientCert, sClientBare, sStrangerEmb, sStrangerBare, sSibling, sLookalike, sLookalikeBare}
 var c05respStatus = []ocsp.ResponseStatus{ocsp.Malformed, ocsp.InternalError, ocsp.TryLater, ocsp.SignatureRequired, ocsp.Unauthorized}
 
 func runC05(h *Harness) {
@@ -271,7 +289,8 @@ func runC05(h *Harness) {
 	w := NewWorld(h, WorldOpts{Intermediate: false})
 	resp := w.NewResponder("http://ocsp.sim/", w.A)
 	serial := big.NewInt(0x77aa)
-	cert, key := w.A.IssueWithKey(EEOpts{Serial: serial, OCSP: []string{resp.URL}, CDP: []string{}})
+	// most client certificates carry an authority key identifier but no subject key identifier of their own
+	cert, key := w.A.IssueWithKey(EEOpts{Serial: serial, OCSP: []string{resp.URL}, CDP: []string{}, NoSKI: h.Idx%5 != 0})
 	resp.ClientCert, resp.ClientKey = cert, key
 	strict := true
 	status := rGood
